@@ -2,12 +2,13 @@
 (* Exhaustive check of the Alphabet theory: one state per codon, per symbol   *)
 (* pair and mode, per accepted character.  Invariants are the clauses C03,    *)
 (* C07 and C17 rely on.                                                       *)
-EXTENDS Alphabet
+EXTENDS Distance
 VARIABLE x
 Init == \/ x \in [kind : {"codon"}, c : Codons3375]
         \/ x \in [kind : {"pair"}, a : Sym, b : Sym, hard : BOOLEAN]
         \/ x \in [kind : {"char"}, c : Chars]
         \/ x \in [kind : {"thm"}, n : 1..8]
+        \/ x \in {[kind |-> "dec", n |-> n, d |-> d] : n \in 0..2, d \in 1..40} /\ x.n <= x.d
 Next == UNCHANGED x
 
 CodonInv == x.kind = "codon" =>
@@ -20,6 +21,19 @@ PairInv == x.kind = "pair" =>
    /\ ((Enc(x.a, x.hard) & Enc(x.b, x.hard)) < 16) <=> Disjoint(x.a, x.b, x.hard)
    /\ Disjoint(x.a, x.b, x.hard) <=> Disjoint(x.b, x.a, x.hard)
    /\ (Enc(x.a, FALSE) = Enc(x.b, FALSE)) => x.a = x.b
+PairDistInv == x.kind = "pair" /\ ~x.hard =>
+   /\ BitDiffer(x.a, x.b) <=> Differ(x.a, x.b)
+   /\ BitSameKnown(x.a, x.b) <=> SameKnown(x.a, x.b)
+   /\ BitTnDiff(x.a, x.b) <=> (BothKnown(x.a, x.b) /\ Differ(x.a, x.b))
+   /\ BitTnP1(x.a, x.b) <=> (BothKnown(x.a, x.b) /\ Differ(x.a, x.b) /\ Purine(x.a) /\ Purine(x.b))
+   /\ BitTnP2(x.a, x.b) <=> (BothKnown(x.a, x.b) /\ Differ(x.a, x.b) /\ Pyrimid(x.a) /\ Pyrimid(x.b))
+   /\ ~(Differ(x.a, x.b) /\ SameKnown(x.a, x.b))
+   /\ Differ(x.a, x.b) <=> Differ(x.b, x.a)
+DecInv == x.kind = "dec" => LET v == Dec9(x.n, x.d) IN
+   /\ v >= 0 /\ v <= 1000000000
+   /\ (x.n = x.d) => v = 1000000000
+   /\ (x.n = 0) => v = 0
+   /\ x.d \in {1, 2, 4, 5, 8, 10} => v * x.d = x.n * 1000000000   \* exact finite decimals (small n: no overflow)
 CharInv == x.kind = "char" =>
    /\ CompChar(CompChar(x.c)) = x.c
    /\ Upper(x.c) \in Sym
